@@ -62,6 +62,11 @@ let rec sub n0 m =
             | O -> n0
             | S l -> sub k l)
 
+(** val eqb : bool -> bool -> bool **)
+
+let eqb b1 b2 =
+  if b1 then b2 else if b2 then false else true
+
 module Nat =
  struct
   (** val eqb : nat -> nat -> bool **)
@@ -1034,6 +1039,18 @@ let rec overwrite bs off w =
     (match bs with
      | [] -> N0 :: (overwrite [] o w)
      | b :: r -> b :: (overwrite r o w))
+
+(** val beq_bytes : bytes -> bytes -> bool **)
+
+let rec beq_bytes a b =
+  match a with
+  | [] -> (match b with
+           | [] -> true
+           | _ :: _ -> false)
+  | x :: a' ->
+    (match b with
+     | [] -> false
+     | y :: b' -> (&&) (N.eqb x y) (beq_bytes a' b'))
 
 (** val all_zero : bytes -> bool **)
 
@@ -2730,6 +2747,347 @@ let run_seg = function
                   | None -> s_bad)
                | None -> s_bad)))))
 
+(** val rs_magic : n **)
+
+let rs_magic =
+  Npos (XI (XO (XI (XI (XO (XO (XO (XO (XI (XI (XO (XI (XO (XI (XI (XO (XI
+    (XI (XO (XI (XO (XI (XI (XI (XO (XO (XO (XI (XI (XO
+    XH))))))))))))))))))))))))))))))
+
+(** val rs_version : n **)
+
+let rs_version =
+  N0
+
+(** val rs_t_invalid : n **)
+
+let rs_t_invalid =
+  N0
+
+(** val rs_t_entry : n **)
+
+let rs_t_entry =
+  Npos XH
+
+(** val rs_t_index : n **)
+
+let rs_t_index =
+  Npos (XO XH)
+
+(** val rs_t_commit : n **)
+
+let rs_t_commit =
+  Npos (XI XH)
+
+(** val rs_max_entry : n **)
+
+let rs_max_entry =
+  Npos (XO (XO (XO (XO (XO (XO (XO (XO (XO (XO (XO (XO (XO (XO (XO (XO (XO
+    (XO (XO (XO (XO (XO (XO (XO (XO (XO XH))))))))))))))))))))))))))
+
+(** val rs_header_len : n **)
+
+let rs_header_len =
+  Npos (XO (XO (XO (XO (XO XH)))))
+
+type rs_header = { h_base : n; h_id : n; h_codec : n }
+
+(** val rs_pad : n -> n **)
+
+let rs_pad n0 =
+  N.modulo
+    (N.sub (Npos (XO (XO (XO XH)))) (N.modulo n0 (Npos (XO (XO (XO XH))))))
+    (Npos (XO (XO (XO XH))))
+
+(** val rs_frame : n -> bytes -> bytes **)
+
+let rs_frame typ payload =
+  app (typ :: (N0 :: (N0 :: (N0 :: []))))
+    (app (le32 (len payload))
+      (app payload (zeros (N.to_nat (rs_pad (len payload))))))
+
+(** val rs_frame_size : n -> n **)
+
+let rs_frame_size n0 =
+  N.add (N.add (Npos (XO (XO (XO XH)))) n0) (rs_pad n0)
+
+type rs_batch = bytes list * bool
+
+(** val rs_entries : bytes list -> bytes **)
+
+let rs_entries ps =
+  flat_map (rs_frame rs_t_entry) ps
+
+(** val rs_index_start_from : n -> rs_batch list -> n **)
+
+let rec rs_index_start_from pos = function
+| [] -> N0
+| r0 :: r ->
+  let (ps, seal) = r0 in
+  if seal
+  then N.add (N.add pos (len (rs_entries ps))) (Npos (XO (XO (XO XH))))
+  else rs_index_start_from
+         (N.add (N.add pos (len (rs_entries ps))) (Npos (XO (XO (XO XH))))) r
+
+(** val rs_index_start : rs_batch list -> n **)
+
+let rs_index_start bs =
+  rs_index_start_from rs_header_len bs
+
+(** val rs_slice : bytes -> n -> n -> bytes **)
+
+let rs_slice f off n0 =
+  firstn (N.to_nat n0) (skipn (N.to_nat off) f)
+
+type rs_pst = { p_cur : bytes list; p_seal : bool; p_offs : n list;
+                p_start : n; p_done : rs_batch list }
+
+(** val rs_finish : rs_pst -> rs_batch list option **)
+
+let rs_finish st =
+  match st.p_cur with
+  | [] -> if st.p_seal then None else Some st.p_done
+  | _ :: _ -> None
+
+(** val rs_pad_ok : bytes -> n -> n -> bool **)
+
+let rs_pad_ok f off n0 =
+  let pad = rs_slice f off n0 in (&&) (N.eqb (len pad) n0) (all_zero pad)
+
+(** val rs_parse_frames :
+    nat -> bytes -> n -> rs_pst -> rs_batch list option **)
+
+let rec rs_parse_frames fuel f off st =
+  match fuel with
+  | O -> None
+  | S fuel' ->
+    let h = rs_slice f off (Npos (XO (XO (XO XH)))) in
+    if N.ltb (len h) (Npos (XO (XO (XO XH))))
+    then rs_finish st
+    else let t = nth O h N0 in
+         let v = rd32 (skipn (S (S (S (S O)))) h) in
+         if N.eqb t rs_t_invalid
+         then if all_zero h then rs_finish st else None
+         else if N.eqb t rs_t_entry
+              then let p = rs_slice f (N.add off (Npos (XO (XO (XO XH))))) v
+                   in
+                   if (||)
+                        ((||) ((||) (N.ltb rs_max_entry v) (N.ltb (len p) v))
+                          (negb
+                            (rs_pad_ok f
+                              (N.add (N.add off (Npos (XO (XO (XO XH))))) v)
+                              (rs_pad v)))) st.p_seal
+                   then None
+                   else rs_parse_frames fuel' f (N.add off (rs_frame_size v))
+                          { p_cur = (app st.p_cur (p :: [])); p_seal = false;
+                          p_offs = (app st.p_offs (off :: [])); p_start =
+                          st.p_start; p_done = st.p_done }
+              else if N.eqb t rs_t_index
+                   then let want = flat_map le32 st.p_offs in
+                        let p =
+                          rs_slice f (N.add off (Npos (XO (XO (XO XH))))) v
+                        in
+                        if (||)
+                             ((||) (negb (beq_bytes p want))
+                               (negb
+                                 (rs_pad_ok f
+                                   (N.add
+                                     (N.add off (Npos (XO (XO (XO XH))))) v)
+                                   (rs_pad v)))) st.p_seal
+                        then None
+                        else rs_parse_frames fuel' f
+                               (N.add off (rs_frame_size v)) { p_cur =
+                               st.p_cur; p_seal = true; p_offs = st.p_offs;
+                               p_start = st.p_start; p_done = st.p_done }
+                   else if N.eqb t rs_t_commit
+                        then if N.eqb
+                                  (crc32c
+                                    (rs_slice f st.p_start
+                                      (N.sub off st.p_start))) v
+                             then rs_parse_frames fuel' f
+                                    (N.add off (Npos (XO (XO (XO XH)))))
+                                    { p_cur = []; p_seal = false; p_offs =
+                                    st.p_offs; p_start =
+                                    (N.add off (Npos (XO (XO (XO XH)))));
+                                    p_done =
+                                    (app st.p_done ((st.p_cur,
+                                      st.p_seal) :: [])) }
+                             else None
+                        else None
+
+(** val rs_parse_header : bytes -> rs_header option **)
+
+let rs_parse_header f =
+  let h = rs_slice f N0 rs_header_len in
+  if N.ltb (len h) rs_header_len
+  then None
+  else if negb (N.eqb (rd32 h) rs_magic)
+       then None
+       else if negb
+                 (N.eqb (nth (S (S (S (S (S (S (S O))))))) h N0) rs_version)
+            then None
+            else Some { h_base =
+                   (rd64 (skipn (S (S (S (S (S (S (S (S O)))))))) h)); h_id =
+                   (rd64
+                     (skipn (S (S (S (S (S (S (S (S (S (S (S (S (S (S (S (S
+                       O)))))))))))))))) h)); h_codec =
+                   (rd64
+                     (skipn (S (S (S (S (S (S (S (S (S (S (S (S (S (S (S (S
+                       (S (S (S (S (S (S (S (S O)))))))))))))))))))))))) h)) }
+
+(** val parse : bytes -> (rs_header * rs_batch list) option **)
+
+let parse f =
+  match rs_parse_header f with
+  | Some h ->
+    (match rs_parse_frames (S (S
+             (Nat.div (length f) (S (S (S (S (S (S (S (S O))))))))))) f
+             rs_header_len { p_cur = []; p_seal = false; p_offs = [];
+             p_start = N0; p_done = [] } with
+     | Some bs -> Some (h, bs)
+     | None -> None)
+  | None -> None
+
+(** val s_empty : str **)
+
+let s_empty =
+  (Npos (XI (XO (XI (XO (XO (XI XH))))))) :: ((Npos (XI (XO (XI (XI (XO (XI
+    XH))))))) :: ((Npos (XO (XO (XO (XO (XI (XI XH))))))) :: ((Npos (XO (XO
+    (XI (XO (XI (XI XH))))))) :: ((Npos (XI (XO (XO (XI (XI (XI
+    XH))))))) :: []))))
+
+(** val s_bad_parse : str **)
+
+let s_bad_parse =
+  (Npos (XO (XI (XO (XO (XO (XI XH))))))) :: ((Npos (XI (XO (XO (XO (XO (XI
+    XH))))))) :: ((Npos (XO (XO (XI (XO (XO (XI XH))))))) :: ((Npos (XO (XI
+    (XO (XI (XI XH)))))) :: ((Npos (XO (XO (XO (XO (XI (XI
+    XH))))))) :: ((Npos (XI (XO (XO (XO (XO (XI XH))))))) :: ((Npos (XO (XI
+    (XO (XO (XI (XI XH))))))) :: ((Npos (XI (XI (XO (XO (XI (XI
+    XH))))))) :: ((Npos (XI (XO (XI (XO (XO (XI XH))))))) :: []))))))))
+
+(** val s_bad_hdr : str **)
+
+let s_bad_hdr =
+  (Npos (XO (XI (XO (XO (XO (XI XH))))))) :: ((Npos (XI (XO (XO (XO (XO (XI
+    XH))))))) :: ((Npos (XO (XO (XI (XO (XO (XI XH))))))) :: ((Npos (XO (XI
+    (XO (XI (XI XH)))))) :: ((Npos (XO (XO (XO (XI (XO (XI
+    XH))))))) :: ((Npos (XO (XO (XI (XO (XO (XI XH))))))) :: ((Npos (XO (XI
+    (XO (XO (XI (XI XH))))))) :: []))))))
+
+(** val s_bad_seal : str **)
+
+let s_bad_seal =
+  (Npos (XO (XI (XO (XO (XO (XI XH))))))) :: ((Npos (XI (XO (XO (XO (XO (XI
+    XH))))))) :: ((Npos (XO (XO (XI (XO (XO (XI XH))))))) :: ((Npos (XO (XI
+    (XO (XI (XI XH)))))) :: ((Npos (XI (XI (XO (XO (XI (XI
+    XH))))))) :: ((Npos (XI (XO (XI (XO (XO (XI XH))))))) :: ((Npos (XI (XO
+    (XO (XO (XO (XI XH))))))) :: ((Npos (XO (XO (XI (XI (XO (XI
+    XH))))))) :: [])))))))
+
+(** val s_bad_index : str **)
+
+let s_bad_index =
+  (Npos (XO (XI (XO (XO (XO (XI XH))))))) :: ((Npos (XI (XO (XO (XO (XO (XI
+    XH))))))) :: ((Npos (XO (XO (XI (XO (XO (XI XH))))))) :: ((Npos (XO (XI
+    (XO (XI (XI XH)))))) :: ((Npos (XI (XO (XO (XI (XO (XI
+    XH))))))) :: ((Npos (XO (XI (XI (XI (XO (XI XH))))))) :: ((Npos (XO (XO
+    (XI (XO (XO (XI XH))))))) :: ((Npos (XI (XO (XI (XO (XO (XI
+    XH))))))) :: ((Npos (XO (XO (XO (XI (XI (XI XH))))))) :: []))))))))
+
+(** val pad8 : bytes -> bytes **)
+
+let pad8 bs =
+  app bs
+    (zeros
+      (N.to_nat
+        (N.modulo
+          (N.sub (Npos (XO (XO (XO XH))))
+            (N.modulo (len bs) (Npos (XO (XO (XO XH)))))) (Npos (XO (XO (XO
+          XH)))))))
+
+(** val run_rdm : str list -> str **)
+
+let run_rdm = function
+| [] -> s_bad
+| b :: l ->
+  (match l with
+   | [] -> s_bad
+   | i :: l0 ->
+     (match l0 with
+      | [] -> s_bad
+      | c :: l1 ->
+        (match l1 with
+         | [] -> s_bad
+         | sl :: l2 ->
+           (match l2 with
+            | [] -> s_bad
+            | ist :: l3 ->
+              (match l3 with
+               | [] -> s_bad
+               | hx :: l4 ->
+                 (match l4 with
+                  | [] ->
+                    (match hex_to_N b with
+                     | Some b0 ->
+                       (match hex_to_N i with
+                        | Some i0 ->
+                          (match hex_to_N c with
+                           | Some c0 ->
+                             (match hex_to_N sl with
+                              | Some sl0 ->
+                                (match hex_to_N ist with
+                                 | Some ist0 ->
+                                   (match hex_to_bytes hx with
+                                    | Some bs ->
+                                      if all_zero bs
+                                      then s_empty
+                                      else (match parse (pad8 bs) with
+                                            | Some p ->
+                                              let (h, batches) = p in
+                                              if negb
+                                                   ((&&)
+                                                     ((&&)
+                                                       (N.eqb h.h_base b0)
+                                                       (N.eqb h.h_id i0))
+                                                     (N.eqb h.h_codec c0))
+                                              then s_bad_hdr
+                                              else let sealed0 =
+                                                     existsb snd batches
+                                                   in
+                                                   if negb
+                                                        (eqb sealed0
+                                                          (negb
+                                                            (N.eqb sl0 N0)))
+                                                   then s_bad_seal
+                                                   else if (&&) sealed0
+                                                             (negb
+                                                               (N.eqb
+                                                                 (rs_index_start
+                                                                   batches)
+                                                                 ist0))
+                                                        then s_bad_index
+                                                        else let ps =
+                                                               flat_map fst
+                                                                 batches
+                                                             in
+                                                             join
+                                                               (s_ok :: (
+                                                               (n_to_hex
+                                                                 (N.of_nat
+                                                                   (length ps))) :: 
+                                                               (map
+                                                                 bytes_to_hex
+                                                                 ps)))
+                                            | None -> s_bad_parse)
+                                    | None -> s_bad)
+                                 | None -> s_bad)
+                              | None -> s_bad)
+                           | None -> s_bad)
+                        | None -> s_bad)
+                     | None -> s_bad)
+                  | _ :: _ -> s_bad))))))
+
 (** val k_enc : str **)
 
 let k_enc =
@@ -2748,6 +3106,12 @@ let k_seg =
   (Npos (XI (XI (XO (XO (XI (XI XH))))))) :: ((Npos (XI (XO (XI (XO (XO (XI
     XH))))))) :: ((Npos (XI (XI (XI (XO (XO (XI XH))))))) :: []))
 
+(** val k_rdm : str **)
+
+let k_rdm =
+  (Npos (XO (XI (XO (XO (XI (XI XH))))))) :: ((Npos (XO (XO (XI (XO (XO (XI
+    XH))))))) :: ((Npos (XI (XO (XI (XI (XO (XI XH))))))) :: []))
+
 (** val run_line : str -> str **)
 
 let run_line line =
@@ -2758,4 +3122,6 @@ let run_line line =
     then run_enc args
     else if str_eqb cmd k_dec
          then run_dec args
-         else if str_eqb cmd k_seg then run_seg args else s_bad
+         else if str_eqb cmd k_seg
+              then run_seg args
+              else if str_eqb cmd k_rdm then run_rdm args else s_bad
